@@ -985,7 +985,7 @@ class QualifiedPrincipalTypeTest(object):
     def __call__(self, kind, data, pos, namespaces, variables):
         namespace = Namespace(namespaces.get(self.prefix))
         if kind is START:
-            if self.principal_type is ATTRIBUTE and data[1]:
+            if self.principal_type is ATTRIBUTE:
                 return Attrs([(name, value) for name, value in data[1]
                               if name in namespace]) or None
             else:
@@ -1003,8 +1003,9 @@ class LocalNameTest(object):
         self.name = name
     def __call__(self, kind, data, pos, namespaces, variables):
         if kind is START:
-            if self.principal_type is ATTRIBUTE and self.name in data[1]:
-                return Attrs([(self.name, data[1].get(self.name))])
+            if self.principal_type is ATTRIBUTE:
+                if self.name in data[1]:
+                    return Attrs([(self.name, data[1].get(self.name))])
             else:
                 return data[0].localname == self.name
     def __repr__(self):
@@ -1022,8 +1023,9 @@ class QualifiedNameTest(object):
     def __call__(self, kind, data, pos, namespaces, variables):
         qname = QName('%s}%s' % (namespaces.get(self.prefix), self.name))
         if kind is START:
-            if self.principal_type is ATTRIBUTE and qname in data[1]:
-                return Attrs([(qname, data[1].get(qname))])
+            if self.principal_type is ATTRIBUTE:
+                if qname in data[1]:
+                    return Attrs([(qname, data[1].get(qname))])
             else:
                 return data[0] == qname
     def __repr__(self):
